@@ -581,7 +581,7 @@ def make_configs(r, progs, thorough):
     c["job"]["programs"] = progs
     c["job"]["full"] = False
   # fresh process per program (a subset in the quick tier)
-  singles = ids[:60] if thorough else ids[: max(4, len(ids) // 4)]
+  singles = ids[:80] if thorough else ids[: max(4, len(ids) // 4)]
   for s in ((4, 9) if thorough else (4,)):
     for pid in singles:
       cfgs.append({"name": "seed%d-freshprocess-%s" % (s, pid), "hashseed": s, "single": pid,
@@ -792,10 +792,10 @@ def run(res):
   deep = thorough or drift
   names = set(pytd_visitors.CanonicalOrderingVisitor().visit_class_names)
   # ---- (3) is started first: its subprocesses run while the Coq legs below are evaluated
-  finish_e2e = e2e(res, res.seed, 160 if thorough else 24, thorough, 10 if thorough else 6)
+  finish_e2e = e2e(res, res.seed, 240 if thorough else 24, thorough, 10 if thorough else 6)
   t0 = time.time()
   # ---- (2a)
-  cases = canon_cases(res, res.seed, 1200 if thorough else (400 if deep else 60), names)
+  cases = canon_cases(res, res.seed, 1800 if thorough else (400 if deep else 60), names)
   n_trees = run_canon_model(res, cases, "generated", 30)
   res.extra["canon_cases"] = len(cases)
   res.extra["canon_wall_s"] = round(time.time() - t0, 1)
